@@ -58,9 +58,15 @@ CHECKS["C08"] = dict(engine="bvh-sched", design_ref="DESIGN.md §6 C08", techniq
 CHECKS["C12"] = dict(engine="bvh-sched", design_ref="DESIGN.md §6 C12", technique="fork/join DAG of empty-world runs vs reference greedy grouping; bounded-progress probes on 1/2/16-thread pools",
     level_text="Exploration: on empty worlds the observed fork/join relation must make every same-group pair of the 20-line reference grouping logically parallel; termination is checked as bounded progress under a 120 s watchdog (reproduced twice).", level_note=SCHED_NOTE)
 
+CHECKS["C14"] = dict(engine="c14-family", design_ref="DESIGN.md §6 C14", technique="compile the generated accept/reject program pairs against the current tree; run every accepted program under Miri (Tree Borrows, data races)",
+    level_text="Other: the property is about which programs rustc accepts. The check executes the compiler on a systematically generated paired family (bad program / one-token twin) built against brood from the current tree, and executes every accepted program "
+               "under Miri so that an unexpectedly accepted conflicting program is witnessed by a concrete aliasing / data-race report. Coverage is the enumerated family, not all programs.",
+    level_note="Trusted: rustc's accept/reject verdict and error class; the family in gen/gen_c14.py. The rejection half is not a runtime observation of brood (see DESIGN.md §6 C14 and §10).")
+
 NOT_APPLICABLE = {}
 
 ENGINES = [
+    dict(name="c14-family", path="/verif/lib/run_c14.py", serves_properties=["C14"], kind_free_text="generated accept/reject program pairs compiled with rustc against the current tree; accepted programs executed under Miri"),
     dict(name="bvh-sched", path="/verif/bvh/src/sched.rs", serves_properties=["C07", "C08", "C12"], kind_free_text="schedule monitor: generated schedule programs, join-hook strand paths, reach-set race check, sequential differential, termination probes"),
     dict(name="bvh-faults", path="/verif/bvh/src/faults.rs", serves_properties=["C17"], kind_free_text="panic-injection monitor: fuse at the k-th user callback, then ledger / allocator / payload oracles over the aftermath"),
     dict(name="bvh-deser", path="/verif/bvh/src/deser.rs", serves_properties=["C11", "C04"], kind_free_text="hostile-input monitor: mutated serializations -> Deserialize under panic/ledger/allocator/audit/model oracles"),
